@@ -196,6 +196,19 @@ class Frame:
             out.append(("nested-blocks", CompoundInterval([S, S + 1], [E, E - 1], other_strand, par)))
         if base is not None and not LM.is_empty_singleton(base):
             out.append(("self", base))
+            # probes aimed at the inner structure: every gap of the first dozen (whole gap / across a zero-length block sitting in it),
+            # and a window from the middle of one block to the middle of a later one
+            bl = sorted((b.start, b.end) for b in base.blocks)
+            real = [b for b in bl if b[1] > b[0]]
+            for j, (a, b2) in enumerate(zip(real, real[1:])):
+                if j >= 12:
+                    break
+                if b2[0] - a[1] >= 1:
+                    add(f"gap-{j}", a[1], b2[0], st)
+                    if b2[0] - a[1] >= 2:
+                        add(f"inside-gap-{j}", a[1] + 1, b2[0], other_strand)
+            if len(real) >= 3:
+                add("mid-block-to-mid-block", real[0][1] - 1, real[len(real) // 2][0] + 1, st)
         add("whole-span-no-parent" if par is not None else "whole-span-id-parent", S, E, st, None if par is not None else Parent(id="chrX"))
         add("whole-span-other-parent", S, E, st, Parent(id="some-other-sequence"))
         self._locs = out
